@@ -2,7 +2,7 @@
 
 1. TLC enumerates (QuantityAlgGen, Source="enum") every operand pair over the exact-ratio units
    {none, m, cm, km, s, ms, g, kg, %, m/s, cm2, s-1, rad} x values {-2, 0, 1, 3} x {+ - * /} x both operand orders x a plain
-   number on either side, negation, and power under 22 exponent spellings (int, pair, float, Fraction, np.power,
+   number on either side, negation, and power under 30 exponent spellings (int, pair, float, Fraction, np.float64/float32/int64, np.power,
    np.sqrt, np.cbrt); it computes the ideal's expectation (exponent map, dimension, base-dimension value as an
    exact rational and as a term, refusal) and checks the algebraic lemmas on the rational model.
 2. Every record is replayed on real Quantity objects (scalar operands written as unit text and as exponent dict,
@@ -82,6 +82,12 @@ def perform(op, form, lit, n, a, b):
             return a ** (lit[0] / lit[1])
         if form == "fraction":
             return a ** Fraction(lit[0], lit[1])
+        if form == "np.float64":
+            return a ** np.float64(lit[0] / lit[1])
+        if form == "np.float32":
+            return a ** np.float32(lit[0] / lit[1])
+        if form == "np.int64":
+            return a ** np.int64(lit[0])
         if form == "np.power":
             return np.power(a, lit[0] if len(lit) == 1 else lit[0] / lit[1])
         if form == "np.sqrt":
@@ -259,7 +265,8 @@ def table_scenarios(rnd, n):
         return out
     pow_cases = [("int", [2]), ("int", [-1]), ("int", [3]), ("pair", [1, 2]), ("pair", [3, 2]), ("pair", [-1, 2]),
                  ("pair", [2, 6]), ("float", [2, 1]), ("float", [1, 2]), ("float", [-3, 2]), ("float", [1, 4]),
-                 ("fraction", [1, 2]), ("fraction", [3, 1]), ("np.power", [2]), ("np.power", [3, 2]), ("np.sqrt", []), ("np.cbrt", [])]
+                 ("fraction", [1, 2]), ("fraction", [3, 1]), ("np.float64", [1, 2]), ("np.float64", [-3, 2]), ("np.float32", [1, 2]),
+                 ("np.int64", [2]), ("np.int64", [-1]), ("np.power", [2]), ("np.power", [3, 2]), ("np.sqrt", []), ("np.cbrt", [])]
     scen = []
     used_units = set()
     while len(scen) < n:
@@ -371,7 +378,7 @@ def run(replay=None):
         "scenarios_enumerated_by_tlc": len(recs), "scenarios_over_table_units": len(r2.records),
         "table_units_used": len(json.load(open(fin))["units"]),
         "rule": "TLC enumerates all operand pairs over 13 exact-ratio unit expressions x 4 values x (+,-,*,/) x both orders x plain number "
-                "on either side, negation and 22 exponent spellings (exhaustive), plus a seeded sample of scenarios over all linear "
+                "on either side, negation and 30 exponent spellings incl. NumPy scalar types (exhaustive), plus a seeded sample of scenarios over all linear "
                 "table units with one-letter prefixes annotated by TLC; each replayed as scalars (unit text and exponent dict, Python and "
                 "NumPy plain numbers) and as arrays; non-trivial = distinct (shape, values) whose operands mix units, involve a plain "
                 "number, or a power",
